@@ -23,6 +23,10 @@ CON = "con1"
 FUNCS = {"bp": bp_estimate, "cp": cp_estimate, "neg": (lambda winner, loser, other, total: -(winner - loser))}
 
 
+class Parsed(str):
+    """the reported winner's name as a parser delivers it: equal to the entry of the candidate list, not the same object"""
+
+
 def build_inputs(n, profile_idx, winner, hint=None, reverse=False):
     """fresh real inputs: (Contest, cvrs dict)"""
     alpha = list(R.rankings(n)) + [None]
@@ -39,7 +43,7 @@ def build_inputs(n, profile_idx, winner, hint=None, reverse=False):
             cvrs[f"b{i}"] = {CON: {NAMES[c]: r for r, c in enumerate(b)}}
             tot += 1
     order = [NAMES[c] for c in hint] if hint is not None else []
-    con = RU.Contest(CON, [NAMES[c] for c in range(n)], NAMES[winner], tot, order=order)
+    con = RU.Contest(CON, [NAMES[c] for c in range(n)], Parsed(NAMES[winner]), tot, order=order)
     return con, cvrs
 
 
@@ -48,7 +52,7 @@ def call_raire(n, profile_idx, winner, kind, hint=None, reverse=False, agap=None
     con, cvrs = build_inputs(n, profile_idx, winner, hint, reverse)
     try:
         kw = {} if agap is None else {"agap": agap}
-        res = compute_raire_assertions(con, cvrs, NAMES[winner], FUNCS[kind], False, stream=io.StringIO(), **kw)
+        res = compute_raire_assertions(con, cvrs, Parsed(NAMES[winner]), FUNCS[kind], False, stream=io.StringIO(), **kw)
     except Exception as e:  # noqa
         return ("exc", f"{type(e).__name__}: {str(e)[:80]}"), None, None
     return normalise(res), res, cvrs
